@@ -214,5 +214,21 @@ let () =
       | "expr" -> run_parse_expr | "stmt" -> run_parse_stmt
       | "stmts2" -> run_parse_stmts (nat_of_int 2) | _ -> run_parse_stmts (nat_of_int 3) in
     List.iter (fun r -> print_endline (cut (of_model (f (to_model r))))) (read_records ())
+  | _ :: (("parse+s" | "expr+s" | "stmt+s" | "stmts2+s" | "stmts3+s") as m) :: _ ->
+    let cut s =
+      let n = String.length s in
+      let rec find i = if i + 2 >= n then None
+        else if s.[i] = ' ' && s.[i+1] = '|' && s.[i+2] = ' ' then Some i else find (i + 1) in
+      if n >= 2 && String.sub s 0 2 = "OK" then
+        (match find 0 with Some i -> String.sub s 0 i | None -> s) else s in
+    let rec nat_of_int i = if i = 0 then O else S (nat_of_int (i - 1)) in
+    let f = match m with
+      | "parse+s" -> run_state_file | "expr+s" -> run_state_expr | "stmt+s" -> run_state_stmt
+      | "stmts2+s" -> run_state_stmts (nat_of_int 2) | _ -> run_state_stmts (nat_of_int 3) in
+    List.iter (fun r ->
+        let (line, st) = f (to_model r) in
+        let line = of_model line in
+        let line = if m = "parse+s" then line else cut line in
+        print_endline (line ^ of_model st)) (read_records ())
   | _ :: "enum" :: args -> run_enum args
   | _ -> prerr_endline "usage: gm <tokens|enum ...>"; exit 2
